@@ -301,7 +301,9 @@ func runC11ForcedM(cfg c11Cfg, choose func(step int, enabled []string) string) c
 					hang = true
 					break
 				}
-				emit("FUnlock ("+owner(t)+")", c11PointCodeM(t.point))
+				// an unlock starts no loop: the goroutine that was waiting for the mutex may already have replaced the
+				// loop while this one was on its way to its next point, its new loop belongs to ITS step
+				items = append(items, fmt.Sprintf("(FUnlock (%s), %d, %d%%nat)", owner(t), c11PointCodeM(t.point), nl0))
 				holder = nil
 				if w := mwait; w != nil {
 					// the goroutine that was blocked in Lock gets the mutex
@@ -414,11 +416,11 @@ func c11MSmallConfigs(thorough bool) []c11Cfg {
 	cs := []c11Cfg{
 		{n: 1, msgs: 2, progs: map[int][]c11Op{1: {N(2)}}},
 		{n: 0, msgs: 2, progs: map[int][]c11Op{1: {R}}},
+		{n: 0, msgs: 2, progs: map[int][]c11Op{1: {N(2)}}},
 		{n: 1, msgs: 2, k: 1, progs: map[int][]c11Op{}},
 	}
 	if thorough {
 		cs = append(cs,
-			c11Cfg{n: 0, msgs: 2, progs: map[int][]c11Op{1: {N(2)}}},
 			c11Cfg{n: 1, msgs: 3, progs: map[int][]c11Op{1: {N(3)}, 2: {N(3)}}},
 			c11Cfg{n: 1, msgs: 3, progs: map[int][]c11Op{1: {R}, 2: {N(3)}}},
 			c11Cfg{n: 0, msgs: 2, k: 1, progs: map[int][]c11Op{1: {N(2)}}},
@@ -437,7 +439,7 @@ func c11MutexCases(e *Emitter, rng *Rng, thorough bool, nontrivial func(c11Cfg) 
 			emitM(p.cfg, runC11ForcedM(p.cfg, c11PlanChooser(strings.Fields(p.plan))), "plan")
 		}
 	}
-	perCfg := 250
+	perCfg := 800
 	if thorough {
 		perCfg = 4000
 	}
